@@ -38,8 +38,11 @@
      C04_prints_admitted_np_fwd  NON-POLARIZED mode, programs with FORWARDS (no drop, no split, one provider name per process):
                                  Control f t is Sax's rule id (C04_refines_sax_np_control); per step C04_refines_sax_np;
                                  with C03's NP determinism: C04_results_unique_admitted_np_fwd
+     C04_prints_admitted_all2    TWO PROVIDER NAMES: the same for every parsed, accepted, closed program whose declarations have one or
+                                 two provider names, from spec/SaxInit2.sax_init2 (= sax_init on single-name programs;
+                                 C04_alpha_init2: it is the abstraction of the interpreter's initial configuration)
    What rests on the correspondence only: that the real interpreter's prints and their order are the
-   model's (suite `run`); results for programs with multi-name provider declarations (prc[a,b]); results in
+   model's (suite `run`); results for programs with declarations of MORE THAN TWO provider names (n-ary split); results in
    the non-polarized mode for programs with drop (NP reclaims nothing: the dropped subtree stays as objects that
    Sax.v may still step, next to a pending drop request that never fires — a simulation up to such garbage is
    not proved) or split. *)
@@ -49,7 +52,7 @@ Require Import Grits.spec.Sax Grits.proofs.Causality Grits.proofs.SaxRefine Grit
 Require Import Grits.Expand Grits.TcTop Grits.spec.RtTyping Grits.spec.Topo Grits.proofs.RtTheorems Grits.proofs.RtTcSyn
                Grits.proofs.TopoLin Grits.proofs.TopoStep Grits.proofs.TopoReach Grits.proofs.AsyncSync Grits.proofs.SaxTyped Grits.proofs.DeterminismAll
                Grits.proofs.InitAccept Grits.proofs.SaxAccept Grits.proofs.InvAll Grits.proofs.SaxDrop Grits.proofs.SaxSplit
-               Grits.proofs.DeterminismNP Grits.proofs.SaxNP.
+               Grits.proofs.DeterminismNP Grits.proofs.SaxNP Grits.spec.SaxInit2 Grits.proofs.SaxTwo.
 
 Theorem C04_trace_causal : forall md (p : program) fuel pick r tr,
   exec_trace fuel pick md (p_types p) (p_funs p) (init_config p) [] = (r, tr) ->
@@ -263,6 +266,48 @@ Example C04_ex_all :
   c04_all_text ex_text = true.
 Proof. vm_compute. repeat split; reflexivity. Qed.
 
+(* ------------------------------------------------------------------ TWO PROVIDER NAMES (spec/SaxInit2.v, proofs/SaxTwo.v).  `prc[a,b] : T = P` is the
+   contraction of P: Sax.v's proc(c,P) next to a pending split(a,b,c), whose only step is s_copy; `sax_init2` is the
+   configuration after that forced step (two copies of P, one pending split per free name; a pending split(a,b,x) if P
+   is `fwd self x`), and equals Sax.sax_init when every declaration has one name.  It IS the abstraction of the
+   interpreter's initial configuration (C04_alpha_init2), so `single_decls` goes away for declarations with <= 2 names. *)
+Theorem C04_alpha_init2 : forall p : program, decls_le2 p = true -> α (init_config p) ≡ₚ sax_init2 p.
+Proof. exact alpha_init2. Qed.
+
+Theorem C04_sax_init2_single : forall p : program, single_decls p = true -> sax_init2 p = sax_init p.
+Proof. exact sax_init2_single. Qed.
+
+Theorem C04_prints_admitted_all2 : forall md txt p p',
+  is_np md = false ->
+  parse_string txt = POk p -> typecheck p = Accept p' -> in_fragment p' -> decls_le2 p' = true ->
+  forall fuel pick, exists C',
+    sax_steps (p_funs p') true (sax_init2 p')
+      (labels (res_config (exec_run fuel pick md (p_types p') (p_funs p') (init_config p')))) C'.
+Proof. exact prints_admitted_all2. Qed.
+
+Theorem C04_prints_admitted_all2_text : forall txt, c04_all2_text txt = true ->
+  exists p p', parse_string txt = POk p /\ typecheck p = Accept p' /\
+  forall md, is_np md = false -> forall fuel pick, exists C',
+    sax_steps (p_funs p') true (sax_init2 p')
+      (labels (res_config (exec_run fuel pick md (p_types p') (p_funs p') (init_config p')))) C'.
+Proof. exact prints_admitted_all2_text. Qed.
+
+Theorem C04_results_unique_admitted_all2 : forall md txt p p' pick1 f1 t1,
+  is_np md = false ->
+  parse_string txt = POk p -> typecheck p = Accept p' -> in_fragment p' -> decls_le2 p' = true ->
+  exec_run f1 pick1 md (p_types p') (p_funs p') (init_config p') = RQuiescent t1 ->
+  (exists C', sax_steps (p_funs p') true (sax_init2 p') (labels t1) C') /\
+  (forall pick2 f2, (f1 <= f2)%nat ->
+     exists t2, exec_run f2 pick2 md (p_types p') (p_funs p') (init_config p') = RQuiescent t2 /\ labels t2 ≡ₚ labels t1).
+Proof. exact results_unique_admitted_all2. Qed.
+
+(* non-vacuity: two programs with a two-name declaration (outside c04_all_text); the first prints made twice *)
+Example C04_ex_all2 :
+  c04_all2_text example_two_text = true /\ c04_all_text example_two_text = false /\
+  c04_all2_text example_two_call_text = true /\ c04_all2_text RtTheorems.example_split_text = true /\
+  RtTheorems.run_text example_two_text Async (fun _ _ => 0%nat) = Some (0%nat, ["made"; "made"; "done"], true).
+Proof. vm_compute. repeat split; reflexivity. Qed.
+
 (* ------------------------------------------------------------------ NON-POLARIZED mode (proofs/SaxNP.v).  Plain programs (no forward, no drop,
    no split in any body, one provider name per process: DeterminismNP.plain_src_b on the SOURCE program): the NP run
    under any oracle IS the synchronous run under that oracle (PlainNP.plain_run_eq), so the labels of every NP run are
@@ -450,6 +495,12 @@ Print Assumptions C04_prints_admitted_all.
 Print Assumptions C04_prints_admitted_all_text.
 Print Assumptions C04_results_unique_admitted_all.
 Print Assumptions C04_ex_all.
+Print Assumptions C04_alpha_init2.
+Print Assumptions C04_sax_init2_single.
+Print Assumptions C04_prints_admitted_all2.
+Print Assumptions C04_prints_admitted_all2_text.
+Print Assumptions C04_results_unique_admitted_all2.
+Print Assumptions C04_ex_all2.
 Print Assumptions C04_prints_admitted_np_plain.
 Print Assumptions C04_results_unique_admitted_np_plain.
 Print Assumptions C04_prints_admitted_np_plain_text.
